@@ -316,6 +316,38 @@ theorem combine_err_ge (val stat syst : ℝ) (_hs : 0 ≤ stat) :
   apply Real.le_sqrt_of_sq_le
   simp; positivity
 
+/-- the variance bookkeeping behind the three uncertainties: each side's variance is at most the total one (the total takes
+    the larger side of every asymmetric part), for every pattern of present / absent columns -/
+theorem variances_sides_le (val : ℝ) (e : ErrIn) :
+    (variances val e).varsym + (variances val e).varplus ≤ (variances val e).varstat + (variances val e).varsyst ∧
+    (variances val e).varsym + (variances val e).varminus ≤ (variances val e).varstat + (variances val e).varsyst := by
+  obtain ⟨tot, st, spm, sy, ypm, n⟩ := e
+  rcases st with _ | st <;> rcases spm with _ | ⟨sp, sm⟩ <;> rcases sy with _ | sy <;>
+    rcases ypm with _ | ⟨yp, ym⟩ <;>
+    simp only [variances, kmax_eq, max_self] <;>
+    constructor <;>
+    first
+    | linarith
+    | linarith [le_max_left (sp ^ 2) (sm ^ 2), le_max_right (sp ^ 2) (sm ^ 2)]
+    | linarith [le_max_left (yp ^ 2) (ym ^ 2), le_max_right (yp ^ 2) (ym ^ 2)]
+    | linarith [le_max_left (sp ^ 2) (sm ^ 2), le_max_right (sp ^ 2) (sm ^ 2),
+                le_max_left (yp ^ 2) (ym ^ 2), le_max_right (yp ^ 2) (ym ^ 2)]
+
+/-- hence the upper and the lower uncertainty never exceed the total one — whatever columns the file has -/
+theorem combine_sides_le_err (val : ℝ) (e : ErrIn) :
+    (combine val e).errplus ≤ (combine val e).err ∧ (combine val e).errminus ≤ (combine val e).err := by
+  obtain ⟨h1, h2⟩ := variances_sides_le val e
+  rcases ht : e.total with _ | t
+  · simp only [combine, ht, ksqrt]
+    constructor <;> apply Real.sqrt_le_sqrt <;> linarith
+  · simp [combine, ht]
+
+/-- all three uncertainties are non-negative when no total column is given -/
+theorem combine_nonneg (val : ℝ) (e : ErrIn) (h : e.total = none) :
+    0 ≤ (combine val e).err ∧ 0 ≤ (combine val e).errplus ∧ 0 ≤ (combine val e).errminus := by
+  simp only [combine, h, ksqrt]
+  exact ⟨Real.sqrt_nonneg _, Real.sqrt_nonneg _, Real.sqrt_nonneg _⟩
+
 /-- the combined uncertainty for EVERY pattern of present / absent error columns (32 patterns) when no total error is
     given: the quadrature sum of the statistical and systematic parts (larger side of asymmetric ones) and the
     normalisation error (contributed by the independent audit, notes/audit/snip/C09_d.lean) -/
